@@ -259,6 +259,8 @@ func shapeOf(args [][]byte, pre *model.KS, keys []string) string {
 				default:
 					parts = append(parts, "pos")
 				}
+			} else if _, err := strconv.ParseUint(s, 10, 64); err == nil {
+				parts = append(parts, "u64>i64") // fits an unsigned but not a signed 64-bit integer
 			} else if _, err := strconv.ParseFloat(s, 64); err == nil {
 				parts = append(parts, "float")
 			} else if strings.ContainsAny(s, "\r\n\x00\xff") {
@@ -466,6 +468,14 @@ func (x *inst) step(op Op, prog []Op, seedName string, record bool) stepOut {
 		out.poisoned = true
 		return out
 	}
+	if replyWhy != "" && derr == nil {
+		// the dumps agree but the model took a transition the implementation refused (or the other
+		// way round): state the dump does not show (a stream's last id) may differ from here on, so
+		// nothing further is built on this instance
+		out.poisoned = true
+		out.hash = x.stateHash(implC)
+		return out
+	}
 	x.ks = next
 	// structural invariants
 	invs := append([]string{}, dump.Invariants...)
@@ -649,6 +659,11 @@ func getSpec(prop, tier string) *Spec {
 	if s, ok := specCache[k]; ok {
 		return s
 	}
+	if strings.HasSuffix(prop, "/ext") {
+		s := extremesSpec(getSpec(strings.TrimSuffix(prop, "/ext"), tier))
+		specCache[k] = s
+		return s
+	}
 	mk, ok := specs[prop]
 	if !ok {
 		fmt.Fprintf(os.Stderr, "seqmc: no spec for %s\n", prop)
@@ -793,6 +808,29 @@ func runSpec(prop string) int {
 	}
 	rep := ev.NewReport(prop, "model_checking")
 	cov := runSpecInto(rep, prop, tier, spec)
+	if extremesFor[prop] {
+		// numeric extremes and foreign integer spellings in every numeric argument position of the
+		// alphabet, from the seed states (pass 1) and from every state one command away (pass 2)
+		ext := getSpec(prop+"/ext", tier)
+		tr, mu := 0, 0
+		for _, d := range []int{0, 1} {
+			e := *ext
+			e.Depth = d
+			specCache[prop+"/ext/"+tier] = &e
+			c := runSpecInto(rep, prop+"/ext", tier, &e)
+			tr += c["transitions"].(int)
+			mu += c["mutating_transitions"].(int)
+			if !c["exhaustive"].(bool) {
+				cov["exhaustive"] = false
+			}
+		}
+		specCache[prop+"/ext/"+tier] = ext
+		cov["extremes_probe_ops"] = len(ext.ProbeOps)
+		cov["extremes_transitions"] = tr
+		cov["transitions"] = cov["transitions"].(int) + tr
+		cov["traces_validated_against_impl"] = cov["transitions"]
+		cov["mutating_transitions"] = cov["mutating_transitions"].(int) + mu
+	}
 	if prop == "C12" {
 		n, sample := runTreeSweep(rep)
 		cov["tree_sweep_sequences"] = n
@@ -830,7 +868,30 @@ func runSpec(prop string) int {
 			cov["concurrent_stage"] = map[string]interface{}{"engine": "concmc", "schedules": sub["evaluations"], "preemption_bound": sub["preemption_bound"], "generated_pairs": sub["generated_pairs"], "race_pass_runs": sub["race_pass_runs"], "race_reports": sub["race_reports"], "exhaustive": sub["exhaustive"]}
 		}
 	}
-	return rep.Finish(cov, seqAssumptions)
+	rc := rep.Finish(cov, seqAssumptions)
+	if harnessErrors > 0 && rc == 0 {
+		return 2
+	}
+	return rc
+}
+
+var harnessErrors int
+
+// harnessPanic: the innermost non-runtime frame of the panicking goroutine belongs to the
+// verification code (verif/...), not to RedisGO.
+func harnessPanic(detail string) bool {
+	i := strings.Index(detail, "goroutine ")
+	if i < 0 || !strings.Contains(detail, "panic:") {
+		return false
+	}
+	for _, ln := range strings.Split(detail[i:], "\n")[1:] {
+		ln = strings.TrimSpace(ln)
+		if ln == "" || strings.HasPrefix(ln, "/") || strings.HasPrefix(ln, "runtime.") || strings.HasPrefix(ln, "panic(") || strings.HasPrefix(ln, "created by") {
+			continue
+		}
+		return strings.HasPrefix(ln, "verif/") || strings.HasPrefix(ln, "main.")
+	}
+	return false
 }
 
 // runSpecInto explores spec, adds violations to rep and returns the coverage map.
@@ -885,6 +946,14 @@ func runSpecInto(rep *ev.Report, prop, tier string, spec *Spec) map[string]inter
 				kind = "hang"
 			} else if pool.IsOOM(c) {
 				kind = "oom"
+			}
+			if harnessPanic(c.Detail) {
+				// the panic is in the reference model / harness, not in RedisGO: a defect of the
+				// machinery.  Never a violation; the run is marked broken (exit 2).
+				fmt.Fprintf(os.Stderr, "HARNESS-ERROR: %s: %s\n", progString(prog), c.Detail)
+				harnessErrors++
+				crashes++
+				return
 			}
 			x := &inst{spec: spec}
 			rep.Add(&ev.Violation{Engine: "seqmc", Kind: kind, Cmd: opName, Shape: shape,
@@ -1053,4 +1122,88 @@ func nWorkers() int {
 		return n
 	}
 	return 16
+}
+
+// ------------------------------------------------------------------ numeric extremes
+
+// extremesFor: the specs that get the extremes passes.
+var extremesFor = map[string]bool{"C01": true, "C09": true, "C10": true, "C11": true, "C12": true, "C18": true, "C06": true}
+
+// Values both Redis and Go's base-10 parser treat alike: in-range extremes, out-of-range values and
+// spellings only another parser (base prefixes, digit separators, floats, padding) would accept.
+var extremeInts = []string{"0", "-1", "1", "2147483647", "2147483648", "-2147483649", "4294967296", "9223372036854775807", "-9223372036854775808",
+	"9223372036854775808", "-9223372036854775809", "18446744073709551615", "0x1", "0b1", "0o1", "1_0", " 1", "1 ", "1.0", "1e1", ""}
+
+func isPlainInt(s string) bool {
+	if s == "" {
+		return false
+	}
+	i, err := strconv.ParseInt(s, 10, 64)
+	return err == nil && strconv.FormatInt(i, 10) == s
+}
+
+// extremesSpec derives from base a spec whose ProbeOps are the base alphabet with every
+// plain-integer argument replaced, one position at a time, by every extreme.
+func extremesSpec(base *Spec) *Spec {
+	e := *base
+	e.Variants = nil
+	if len(base.Variants) > 0 {
+		e.Variants = base.Variants[:1]
+	}
+	seen := map[string]bool{}
+	for _, op := range base.Alphabet {
+		seen[opKey(op)] = true
+	}
+	var probes []Op
+	for _, op := range base.Alphabet {
+		if len(op.A) < 2 {
+			continue
+		}
+		name := strings.ToLower(string(op.A[0]))
+		if name == "blpop" || name == "brpop" {
+			continue // a huge timeout is a huge (virtual) wait, not an input corner
+		}
+		for i := 1; i < len(op.A); i++ {
+			if !isPlainInt(string(op.A[i])) {
+				continue
+			}
+			for _, x := range extremeInts {
+				if x == string(op.A[i]) {
+					continue
+				}
+				if (name == "srandmember" || name == "hrandfield") && strings.HasPrefix(x, "-") && len(x) > 6 {
+					// a negative count asks for exactly that many elements: a reply of 2^31 elements is
+					// resource use proportional to the request, not an input corner
+					continue
+				}
+				n := Op{Guard: op.Guard}
+				for j, a := range op.A {
+					if j == i {
+						n.A = append(n.A, []byte(x))
+					} else {
+						n.A = append(n.A, a)
+					}
+				}
+				if k := opKey(n); !seen[k] {
+					seen[k] = true
+					probes = append(probes, n)
+				}
+			}
+		}
+	}
+	e.ProbeOps = probes
+	// deadlines one millisecond or one second away: the implementation keeps whole seconds, so the
+	// one-second ambiguity window of C06 applies to every spec here
+	e.Lax = true
+	e.Rule = base.Rule + " [extremes passes]"
+	return &e
+}
+
+func opKey(o Op) string {
+	var b strings.Builder
+	for _, a := range o.A {
+		fmt.Fprintf(&b, "%d:%s|", len(a), a)
+	}
+	fmt.Fprintf(&b, "adv%d", o.AdvMs)
+	return b.String()
 }
